@@ -123,12 +123,20 @@ func genInjectCase(r *Rng) *ICase {
 		n := 1 + r.Intn(2)
 		b.WriteString("remote_write:\n")
 		for i := 0; i < n; i++ {
-			fmt.Fprintf(&b, "- url: http://rw%d/api\n", i)
+			if r.Chance(30) {
+				fmt.Fprintf(&b, "- url: https://writer:wr1te-s3cret@rw%d/api\n", i) // credentials inside the URL
+			} else {
+				fmt.Fprintf(&b, "- url: http://rw%d/api\n", i)
+			}
 			auth("  ", false)
 		}
 	}
 	if r.Chance(30) {
-		b.WriteString("remote_read:\n- url: http://rr/api\n")
+		if r.Chance(30) {
+			b.WriteString("remote_read:\n- url: https://reader:r3ad-s3cret@rr/api\n")
+		} else {
+			b.WriteString("remote_read:\n- url: http://rr/api\n")
+		}
 		auth("  ", false)
 	}
 	c := &ICase{Config: b.String(), Assign: map[string][]ITarget{}, SelfMonitor: r.Chance(30)}
